@@ -467,6 +467,17 @@ impl<'a> Rw<'a> {
         if mc.method != "fold" || mc.args.len() != 2 {
             return false;
         }
+        if let syn::Expr::MethodCall(m) = &*mc.receiver {
+            if m.method == "rev" && m.args.is_empty() {
+                if let syn::Expr::MethodCall(it) = &*m.receiver {
+                    return self.try_plain_fold(mc, it, true);
+                }
+                return false;
+            }
+            if m.method == "iter" && m.args.is_empty() {
+                return self.try_plain_fold(mc, m, false);
+            }
+        }
         let map = match &*mc.receiver { syn::Expr::MethodCall(m) if m.method == "map" && m.args.len() == 1 => m, _ => return false };
         let en = match &*map.receiver { syn::Expr::MethodCall(m) if m.method == "enumerate" && m.args.is_empty() => m, _ => return false };
         let it = match &*en.receiver { syn::Expr::MethodCall(m) if m.method == "iter" && m.args.is_empty() => m, _ => return false };
@@ -497,6 +508,46 @@ impl<'a> Rw<'a> {
         // closures and the operands are visited for the other rules
         self.visit_expr(x);
         self.visit_expr(&map.args[0]);
+        self.visit_expr(&mc.args[0]);
+        self.visit_expr(&mc.args[1]);
+        true
+    }
+
+    /// R13: `X.iter().rev().fold(INIT, G)` -> `acc = INIT; for i in (0..X.len()).rev() { acc = G(acc, &X[i]) }` (and the
+    /// same without `.rev()`, counting upwards); G stays verbatim
+    fn try_plain_fold(&mut self, mc: &syn::ExprMethodCall, it: &syn::ExprMethodCall, rev: bool) -> bool {
+        if it.method != "iter" || !it.args.is_empty() {
+            return false;
+        }
+        let k = self.iter_chain_idx;
+        let ls = match self.spec.iter_loops.get(&k.to_string()).cloned() {
+            Some(l) => l,
+            None => return false,
+        };
+        self.iter_chain_idx += 1;
+        let x = &*it.receiver;
+        let (xs, xe) = br(x.span());
+        let (is_, ie) = br(mc.args[0].span());
+        let (gs, ge) = br(mc.args[1].span());
+        let (_, end) = br(mc.span());
+        let mut inv = String::new();
+        if !ls.invariant.is_empty() {
+            inv.push_str(&format!(" invariant {},", ls.invariant.join(", ")));
+        }
+        self.insert_open(xs, "{ let __it = ".to_string());
+        self.replace_range(xe, is_, "; let mut __acc = ".to_string(), "R13-fold");
+        self.replace_range(ie, gs, "; let __g = ".to_string(), "R13-fold");
+        let text = if rev {
+            let dec = if ls.decreases.is_empty() { "__i".to_string() } else { ls.decreases.clone() };
+            format!("; let mut __i: usize = __it.len(); while __i > 0{} decreases {}, {{ __i -= 1; {} __acc = __g(__acc, &__it[__i]); }} {} __acc }}",
+                    inv, dec, ls.body_prologue, ls.after)
+        } else {
+            let dec = if ls.decreases.is_empty() { "__it.len() - __i".to_string() } else { ls.decreases.clone() };
+            format!("; let mut __i: usize = 0; while __i < __it.len(){} decreases {}, {{ {} __acc = __g(__acc, &__it[__i]); __i += 1; }} {} __acc }}",
+                    inv, dec, ls.body_prologue, ls.after)
+        };
+        self.replace_range(ge, end, text, if rev { "R13-rev-fold" } else { "R13-fold" });
+        self.visit_expr(x);
         self.visit_expr(&mc.args[0]);
         self.visit_expr(&mc.args[1]);
         true
